@@ -18,6 +18,7 @@ import Mahotas.Proofs.C19IntegralRing
 import Mahotas.Proofs.C19Tas
 import Mahotas.Proofs.C19TasNorm
 import Mahotas.Proofs.C19HaralickQ
+import Mahotas.Proofs.C19LbpSample
 import Mathlib.Data.ZMod.Basic
 namespace Mahotas.C19
 open Mahotas Mahotas.Generated
@@ -627,4 +628,60 @@ example :
     (allPairs 2).map (fun ij => qMatG (0 : Rat) 2 P ij.1 ij.2) = [0, 0, 0, 1] := by
   decide +kernel
 example : stripZeros 2 [5, 1, 1, 3] = [0, 0, 0, 3] ∧ direction 2 3 2 = [2, -2] ∧ direction 3 12 3 = [3, -3, -3] := by
+  decide +kernel
+
+/-- **LBP sampling (`lbp_transform`).** Over any ordered field with a floor function, for every 2-D image, radius, list
+of `(sin, cos)` pairs (any number `P` of points) and every pixel `p` of the image, with the model of C18 for
+`interpolate.shift(image, [radius·dy, radius·dx], order=1)` (mode `constant`, `cval = 0`):
+(1) the raw code `Σ_i [sample_i(p) > image(p)]·2^i` is a `P`-bit number;
+(2) its bit `i` is set exactly when the `i`-th shifted image is brighter at `p` than the centre pixel, the shifted image
+    being the order-1 `zoom_shift` pixel of C18 at the coordinate `p − radius·(dy_i, dx_i)`;
+(3) wherever that coordinate lies inside the image the sample is the bilinear interpolation of the four surrounding
+    pixels (`C18.multilinear`, theorem `C18_fractional_order1_is_linear_nd`);
+(4) turning the sampling pattern by one angular step (first sample moved to the end) rotates the raw code
+    (`roll_right`), hence the code `_lbp.map` returns — the one `lbp_transform` outputs and `lbp` counts — is unchanged. -/
+theorem C19_lbp_sampling {K : Type} [Field K] [LinearOrder K] [IsStrictOrderedRing K]
+    {fl : K → Int} (h : C18.IsFloor fl) (im : Img K) (r : K) (dydx : List (K × K)) (p : List Int)
+    (hp : inside im.shape p = true) (hs : im.shape.length = 2) :
+    let bits := C19Lbp.bitsAt im (dydx.map (C19Lbp.sample fl im r)) p
+    C19Lbp.codeOfBits bits < 2 ^ dydx.length ∧
+    (∀ i (hi : i < dydx.length), (C19Lbp.codeOfBits bits).testBit i
+        = decide (im.getD p 0 < C18.pixel fl 1 .constant 0 im
+            [some (-(r * dydx[i].1)), some (-(r * dydx[i].2))] [none, none] p)) ∧
+    (∀ d : K × K,
+      C18.InRange im.shape (List.zipWith (fun (kk : Int) (s : K) => (kk : K) - s) p [r * d.1, r * d.2]) →
+      C18.pixel fl 1 .constant 0 im [some (-(r * d.1)), some (-(r * d.2))] [none, none] p
+        = C18.multilinear fl (fun pos => im.getD pos 0) im.shape
+            (List.zipWith (fun (kk : Int) (s : K) => (kk : K) - s) p [r * d.1, r * d.2])) ∧
+    (∀ b rest, bits = b :: rest →
+      lbpMap dydx.length (C19Lbp.codeOfBits (rest ++ [b])) = lbpMap dydx.length (C19Lbp.codeOfBits bits)) := by
+  intro bits
+  have hlen : bits.length = dydx.length := by simp [bits, C19Lbp.bitsAt]
+  refine ⟨by rw [← hlen]; exact C19Lbp.codeOfBits_lt bits, ?_, ?_, ?_⟩
+  · intro i hi
+    rw [C19Lbp.testBit_codeOfBits, C19Lbp.bitsAt_getD im _ p i (by simpa using hi)]
+    rw [List.getD_eq_getElem?_getD, List.getElem?_map, List.getElem?_eq_getElem hi]
+    simp only [Option.map_some, Option.getD_some, C19Lbp.sample_getD fl im r _ p hp]
+  · intro d hr
+    have hpl : p.length = 2 := by rw [inside_length hp, hs]
+    have hc := (C18_shift_coordinate_map fl 1 .constant 0 im [r * d.1, r * d.2] p
+      (C19Lbp.inside_nonneg _ _ hp) (by rw [hs, hpl]) (by rw [hpl]; rfl)).2
+    have hmap : ([r * d.1, r * d.2].map fun s => some (-s)) = [some (-(r * d.1)), some (-(r * d.2))] := rfl
+    have hnone : ([r * d.1, r * d.2].map fun _ => (none : Option K)) = [none, none] := rfl
+    rw [hmap, hnone] at hc
+    rw [← hc] at hr ⊢
+    exact C18_fractional_order1_is_linear_nd h .constant 0 im _ _ p hr
+  · intro b rest hb
+    have hl : dydx.length = rest.length + 1 := by rw [← hlen, hb]; rfl
+    rw [hb, hl]
+    exact C19Lbp.lbpMap_rotate b rest
+
+/-- a 3×3 ramp, radius 1, the four axis directions with exact sines/cosines: the centre pixel sees its four neighbours
+    (`image[p − (dy, dx)]`, 0 outside the image), the brighter ones set their bit; rotating the pattern keeps the mapped code -/
+example :
+    let im : Img Rat := { shape := [3, 3], data := #[1, 2, 3, 4, 5, 6, 7, 8, 9] }
+    let dydx : List (Rat × Rat) := [(0, 1), (1, 0), (0, -1), (-1, 0)]
+    C19Lbp.rawCodes (fun x => x.floor) im 1 dydx false = [12, 12, 8, 12, 12, 8, 4, 4, 0] ∧
+    C19Lbp.rawCodes (fun x => x.floor) im (1 / 2) dydx false = [12, 12, 8, 12, 12, 8, 4, 4, 0] ∧
+    (C19Lbp.rawCodes (fun x => x.floor) im 1 dydx false).map (lbpMap 4) = [3, 3, 1, 3, 3, 1, 1, 1, 0] := by
   decide +kernel
